@@ -297,7 +297,7 @@ func replay(vdir, repo, prop, name string, o *Obligation) (bool, map[string]inte
 		ob, _ := json.Marshal(ov)
 		os.WriteFile(ovFile, ob, 0o644)
 		ctx, cancel := context.WithTimeout(context.Background(), 180*time.Second)
-		args := []string{"test", "-overlay", ovFile, "-vet=off", "-timeout", "60s", "-count=1", "-run", "TestVerifReplay"}
+		args := []string{"test", "-overlay", ovFile, "-vet=off", "-timeout", "60s", "-count=1", "-v", "-run", "TestVerifReplay"}
 		if strings.Contains(string(src), "gomonkey") {
 			args = append(args, "-gcflags=all=-l")
 		}
